@@ -1,0 +1,29 @@
+// SPDX-FileCopyrightText: 2022-present Intel Corporation
+//
+// SPDX-License-Identifier: Apache-2.0
+
+//go:build verif
+
+// Contracts for the deductive verifier in /verif (govc). Comment-only: this file contains no code
+// and is excluded from every build that does not set the "verif" tag.
+
+package topo
+
+//@ import topoapi "github.com/onosproject/onos-api/go/onos/topo"
+
+//@ ghost topoWrites int
+
+//@ iface Store.Get(ctx, id) (result, err)
+//@   modifies nothing
+//@   ensures err != nil ==> result == nil
+//@   ensures err == nil ==> result != nil && fresh(result) && result.ID == id
+
+//@ iface Store.Create(ctx, object) (err)
+//@   modifies topoWrites
+//@   ensures topoWrites == old(topoWrites) + 1
+//@ iface Store.Update(ctx, object) (err)
+//@   modifies topoWrites
+//@   ensures topoWrites == old(topoWrites) + 1
+//@ iface Store.Delete(ctx, object) (err)
+//@   modifies topoWrites
+//@   ensures topoWrites == old(topoWrites) + 1
